@@ -64,7 +64,7 @@ pub fn campaign(id: &str, tier: Tier) -> SeqCampaign {
             SeqCampaign {
                 property: "C01",
                 level: "exploration",
-                strategy: case_strategy(&bias),
+                strategy: proptest::strategy::Union::new_weighted(vec![(24, case_strategy(&bias)), (1, crate::ops::wide_extent_strategy(vec![1, 2, 3, 3]))]).boxed(),
                 flags: Flags { results: true, snapshot: true, readback: true, range: true, ..Flags::default() },
                 owned: vec!["results", "snapshot", "readback", "range"],
                 cases: tier.pick(2400, 16000),
@@ -101,7 +101,7 @@ pub fn campaign(id: &str, tier: Tier) -> SeqCampaign {
             SeqCampaign {
                 property: "C05",
                 level: "exploration",
-                strategy: proptest::strategy::Union::new_weighted(vec![(3, case_strategy(&bias)), (2, crate::ops::fill_cycle_strategy(vec![1, 2, 3, 3]))]).boxed(),
+                strategy: proptest::strategy::Union::new_weighted(vec![(6, case_strategy(&bias)), (4, crate::ops::fill_cycle_strategy(vec![1, 2, 3, 3])), (1, crate::ops::wide_extent_strategy(vec![1, 2, 3, 3]))]).boxed(),
                 flags: Flags { results: true, snapshot: true, readback: true, partition: true, ..Flags::default() },
                 owned: vec!["partition", "readback"],
                 cases: tier.pick(900, 8000),
@@ -130,7 +130,7 @@ pub fn campaign(id: &str, tier: Tier) -> SeqCampaign {
             SeqCampaign {
                 property: "C10",
                 level: "exploration",
-                strategy: case_strategy(&bias),
+                strategy: proptest::strategy::Union::new_weighted(vec![(9, case_strategy(&bias)), (1, crate::ops::wide_extent_strategy(vec![1, 2, 3, 3]))]).boxed(),
                 flags: Flags { results: true, snapshot: true, layout: true, ..Flags::default() },
                 owned: vec!["layout"],
                 cases: tier.pick(900, 8000),
@@ -252,13 +252,13 @@ pub fn campaign(id: &str, tier: Tier) -> SeqCampaign {
             SeqCampaign {
                 property: "C14",
                 level: "exploration",
-                strategy: case_strategy(&bias),
+                strategy: proptest::strategy::Union::new_weighted(vec![(19, case_strategy(&bias)), (1, crate::ops::long_range_strategy())]).boxed(),
                 flags: Flags { results: true, snapshot: true, range: true, readback: true, ..Flags::default() },
                 owned: vec!["range", "readback", "snapshot"],
                 cases: tier.pick(2000, 14000),
                 shrink_iters: 300,
                 nontrivial: c14_nt,
-                rule: format!("{base_rule}biased to range queries: bounds from the key universe +/- one byte, empty, 0xff.., start > end, limits 0/1/k/usize::MAX, over resident, cached and disk-only values and over expired entries. Result must be exactly the model's live unexpired keys in [start, end], ascending, first `limit`, with current values; both indexes hold the same key set after every step. Non-trivial: a query whose limit cut a range that contained expired entries, or a range with expired entries inside read from offloaded values."),
+                rule: format!("{base_rule}biased to range queries: bounds from the key universe +/- one byte, empty, 0xff.., start > end, limits 0/1/k/usize::MAX, over resident, cached and disk-only values and over expired entries; one case in twenty populates 257-620 keys (plain, short and long TTL) and queries ranges with limits around 256/512 after deletes, updates and clock advances, so the scan crosses its 256-entry re-pin boundary. Result must be exactly the model's live unexpired keys in [start, end], ascending, first `limit`, with current values; both indexes hold the same key set after every step. Non-trivial: a query whose limit cut a range that contained expired entries, or a range with expired entries inside read from offloaded values."),
                 assumptions: vec![ASSUME_CLOCK.into(), ASSUME_EXPIRED.into()],
                 extra: None,
             }
